@@ -73,6 +73,13 @@ H_BASE = '''void harness(void) { t_char *rat; t_char in[4]; in[0] = '1'; in[1] =
   OSMT_REACH("return");
 }
 '''
+def value_job(N):
+    # value-only instance for longer literals: same lowered text and harness, but only the harness assertions and the code's asserts
+    # (no pointer/bounds/overflow instrumentation: those obligations are discharged by the instrumented job at the smaller bound)
+    j = job('stringToRational.value', 'opensmt::stringToRational', H_CONV, N, weight=40, checks=[])
+    j.bounded_note = 'value obligations only, exhaustive over all NUL-terminated byte strings of at most %d bytes' % N
+    return j
+
 def jobs(tier, N=None):
     N = N or (4 if tier == 'quick' else 5)
     return [job('isIntString', 'opensmt::isIntString', H_INT, N + 1), job('isRealString', 'opensmt::isRealString', H_REAL, N + 1),
@@ -83,3 +90,35 @@ def jobs(tier, N=None):
 
 def info(tier, results):
     return {'level': 'other' if all(r['tier']=='S' or r.get('bounded_note') for r in results) else 'proof', 'trusted_base': ['clang 14 AST', 'osmt2c lowering', 'CBMC 6.11'], 'assumptions': [], 'explanation': ''}
+
+
+# ------------------------------------------------------------------------------------------------- replay
+import subprocess, tempfile, shutil, re
+import vrun
+def replay(r, o):
+    """run the real StringConv.h functions on the counterexample string"""
+    vals = {}
+    for st in o.trace or []:
+        if st.get('stepType') != 'assignment': continue
+        m = re.match(r'^s\[(\d+)l?\]$', st.get('lhs', ''))
+        if m:
+            v = st.get('value', {}); d = v.get('data', v.get('name'))
+            b = v.get('binary')
+            if b is not None: vals[int(m.group(1))] = int(b, 2) & 0xff
+            else:
+                t = str(d)
+                if len(t) == 3 and t[0] == t[2] == "'": vals[int(m.group(1))] = ord(t[1])
+                else: vals[int(m.group(1))] = (vrun.toint(t, 0) or 0) & 0xff
+    if not vals: return {'reproduced': False, 'reason': 'no input bytes in the trace'}
+    bs = bytes(vals.get(k, 0) for k in range(max(vals) + 1))
+    bs = bs.split(b'\0')[0]
+    d = tempfile.mkdtemp(prefix='osmt-replay.')
+    try:
+        exe = os.path.join(d, 'scr')
+        c = subprocess.run(['g++', '-std=c++20', '-I%s/src' % vrun.REPO, os.path.join(VERIF, 'replay/strconv_replay.cc'), '-lgmpxx', '-lgmp', '-o', exe], capture_output=True, text=True)
+        if c.returncode != 0: return {'reproduced': False, 'error': 'replay build failed: ' + c.stderr[-400:]}
+        p = subprocess.run([exe, bs.hex() + '00'], capture_output=True, text=True, timeout=60)
+        return {'reproduced': p.returncode == 1, 'input_bytes_hex': bs.hex(), 'input': bs.decode('latin-1'), 'output': p.stdout[-600:], 'exit': p.returncode,
+                'how': 'g++ replay/strconv_replay.cc against %s/src/common/StringConv.h, oracle: GMP reading of the literal' % vrun.REPO}
+    finally:
+        shutil.rmtree(d, ignore_errors=True)
